@@ -78,7 +78,7 @@ Definition sel_cost (k : selk) (c : N) : N := match k with KExpr _ => c | _ => 0
 Fixpoint cost (en : env) (sel : option nat) (stack : list value) (e : expr) {struct e} : N :=
   1 +
   match e with
-  | EInt _ | EBytes _ | EBool _ | EFilesize | ECount _ | EVar _ | ERule _ | EExt _ | EBound _ => 0
+  | EInt _ | EBytes _ | EBool _ | EDouble _ | EFilesize | ECount _ | EVar _ | ERule _ | EExt _ | EBound _ => 0
   | EReadInt _ a | EOffset _ a | ELength _ a | EVarAt _ a | EUn _ a | EDefined a => cost en sel stack a
   | ECountIn _ f t | EVarIn _ f t =>
       cost en sel stack f + if is_ok_num (eval en sel stack f) then cost en sel stack t else 0
